@@ -453,7 +453,13 @@ impl Jwk {
     }
 
     if let Some(value) = self.key_ops() {
-      public.set_key_ops(value.iter().map(|op| op.invert()));
+      // The operations of a private key are mapped to those of its public counterpart. A key that is already
+      // public keeps its operations: inverting them again would turn e.g. `verify` back into `sign`.
+      if self.is_public() {
+        public.set_key_ops(value.iter().copied());
+      } else {
+        public.set_key_ops(value.iter().map(|op| op.invert()));
+      }
     }
 
     if let Some(value) = self.alg() {
